@@ -431,4 +431,10 @@ def main(argv):
     except InfraError as ex:
         sys.stderr.write("INFRASTRUCTURE ERROR (not a verdict): %s\n" % ex)
         return 2
+    except Exception:
+        # a bug in a check script is not a verdict either (an uncaught Python exception would exit 1)
+        import traceback
+        traceback.print_exc()
+        sys.stderr.write("INTERNAL ERROR in the check script (not a verdict)\n")
+        return 2
     return rc if isinstance(rc, int) else 0
